@@ -152,7 +152,7 @@ def check_reports(rec):
 def roundtrip_case(rng, tmp):
     strategy = rng.choice(["greedy", "balanced", "balanced_market", "balanced_market", "peak_shaving", "distributed"])
     feats = set(rng.sample(["fixed", "generation", "battery", "price", "v2g"], rng.randint(1, 4)))
-    if rng.random() < 0.4:
+    if rng.random() < 0.4 or (strategy == "balanced_market" and rng.random() < 0.7):
         feats = {"fixed", "battery", "price"} | ({"v2g"} if rng.random() < 0.5 else set())    # support power without generation
     js = scen.gen_scenario(rng, n_gc=1, n_veh=rng.randint(1, 3), steps=rng.choice([8, 12, 24]), interval=rng.choice([15, 60]), features=feats)
     for b in js["components"].get("batteries", {}).values():
@@ -261,7 +261,7 @@ def run(tier):
                     rep.add_violation(cls, what, {"unit": "reports", "case": sim.slim(r)})
         rep.notes["report_runs_checked"] = nrep
         rep.cov["evaluations"] += nrep
-        corr.correspond(RT, 16 if tier_ == "quick" else 120, sd, rep, check_model=False, label="cost round trip (implementation only, sampled)")
+        corr.correspond(RT, 24 if tier_ == "quick" else 160, sd, rep, check_model=False, label="cost round trip (implementation only, sampled)")
     return corr.standard_run("C18", tier, [SPLIT], 1500, 20000, sim.SIM_TRUSTED, RULE, extra=extra)
 
 
